@@ -133,7 +133,7 @@ type Case struct {
 var probePaths = []string{"/p/x", "/p/x.txt", "/p/x.bin", "/skip/x.txt", "/p/x.html"}
 
 // write patterns of the inner handler
-var patterns = []string{"none", "once", "many-small", "one-40k", "flushes", "implicit-header", "flush-first"}
+var patterns = []string{"none", "once", "many-small", "one-40k", "flushes", "implicit-header", "implicit-many", "flush-first"}
 
 var statuses = []int{200, 201, 204, 206, 301, 304, 404, 500}
 
@@ -225,6 +225,12 @@ func genInner(c *lib.Ctx, reps int) []*Case {
 					if (pat == "implicit-header" && status == 200) || pat == "flush-first" {
 						code = 0
 					}
+					if pat == "implicit-many" {
+						// no WriteHeader, no Content-Length, several writes: the header is
+						// committed by the first write, which is only part of the body
+						code, status, cl = 0, 200, false
+						cs.Status = 200
+					}
 					if useEnc {
 						cs.Kind = "enc"
 						real := ce
@@ -248,6 +254,8 @@ func genInner(c *lib.Ctx, reps int) []*Case {
 							es.Piece = -1
 						case "once", "one-40k", "implicit-header":
 							es.Piece = 0
+						case "implicit-many":
+							es.Piece = 1 + len(wire)/5
 						case "many-small":
 							es.Piece = 1 + len(wire)/97
 						case "flushes":
@@ -281,6 +289,8 @@ func genInner(c *lib.Ctx, reps int) []*Case {
 						case "none":
 						case "once", "one-40k", "implicit-header":
 							sp.Writes = split(size, size, false)
+						case "implicit-many":
+							sp.Writes = split(size, 1+size/5, false)
 						case "many-small":
 							p := 17
 							if size > 2000 {
